@@ -153,6 +153,10 @@ class Built:
                                                             result=openrpc.ExampleObject(name='r', value=None if nul else 1))]
                 if ann.get('servers'):
                     kw['servers'] = [openrpc.Server(name='s', url='http://srv')]
+                if ann.get('params_schema'):
+                    # the user's own descriptor list, an optional one listed before a required one: generation reads it, never reorders it
+                    kw['params_schema'] = [openrpc.ContentDescriptor(name='opt', schema={'type': 'string'}, required=False),
+                                           openrpc.ContentDescriptor(name='req', schema={'type': 'integer'}, required=True)]
                 if kw:
                     openrpc.annotate(**kw)(f)
             self.funcs.append(f)
@@ -353,6 +357,8 @@ def generate(tier, rng):
                 ann['examples'] = rng.choice([True, True, 'null'])
             if rng.random() < 0.2:
                 ann['servers'] = True
+            if kind == 'openrpc' and rng.random() < 0.3:
+                ann['params_schema'] = True
             if kind == 'openapi':
                 if rng.random() < 0.35:
                     ann['prefix'] = rng.choice(['P', 'Q_', ''])
